@@ -96,8 +96,8 @@ PROPS = {
         "rejects ~50% and ~99% of the candidates (both retry loops run hundreds of times) and one returning a permanent error (per-op timeout turns a hang into an outcome)",
    assumptions=["HMAC-SHA512, SHA-256, RIPEMD-160 and the curve operations are parameters of the theorems"],
    trusted_base=["Lean HMAC-SHA512/SHA-256/RIPEMD-160, the secp256k1 model (C17), P-256 and Ed25519 oracles in the driver, validated by agreement with the Go packages"]),
- "C08": P("C08", tie="Iota.Tie.Slip10",
-   rule="ops: slip10.shift on secp256k1 and P-256: random scalars 0<k<n (also 1 and n-1) x shifts {0, k, n-k, n-k+1, n-1, n, n+1, 2^256-1, 1, random}, private side vs public side with panics recovered; "
+ "C08": P("C08", tie="Iota.Tie.Slip10", e2e="Iota.Tie.E2E.Slip10Secp",
+   rule="ops: slip10.shift (mirrored as gen.slip10.shift and answered by the GENERATED NewPrivateKey / PrivateKey.Shift / PublicKey.Shift, with the generated secp256k1 code resp. a Lean P-256 oracle as the curve) on secp256k1 and P-256: random scalars 0<k<n (also 1 and n-1) x shifts {0, k, n-k, n-k+1, n-1, n, n+1, 2^256-1, 1, random}, private side vs public side with panics recovered; "
         "slip10.pubderive: child of the private key made public vs child of the public key (key bytes, chain code, fingerprint) for random parents and non-hardened indices",
    assumptions=["NIST P-256 only: crypto/elliptic's operations form a cyclic group of order n generated by the base point (hypothesis LawfulW). For secp256k1 the hypothesis is discharged (C17 + N prime + [N]G = 0): shift_commutes_secp256k1 is unconditional"],
    trusted_base=["crypto/elliptic P-256 (external)"]),
